@@ -724,6 +724,19 @@ def check_format_float(ctx: Any, mod: Any, ff: Any, prog: Any) -> None:
         if isinstance(n, ast.FormattedValue) and n.format_spec is not None:
             spec = U(n.format_spec)
             fmt_exprs.append((n, spec))
+    # `format(x, spec)` / `x.__format__(spec)` with a spec that is (a local holding) an f-string or constant is the same conversion
+    fmt_calls: List[ast.AST] = []
+    for n in walk_no_nested(ff):
+        if isinstance(n, ast.Call) and ((dotted(n.func) == 'format' and len(n.args) == 2) or (isinstance(n.func, ast.Attribute) and n.func.attr == '__format__' and len(n.args) == 1)):
+            val_, sp_ = (n.args[0], n.args[1]) if dotted(n.func) == 'format' else (n.func.value, n.args[0])
+            if isinstance(sp_, ast.Name):
+                d_ = [a.value for a in walk_no_nested(ff) if isinstance(a, ast.Assign) and any(isinstance(t, ast.Name) and t.id == sp_.id for t in a.targets)]
+                sp_ = d_[0] if len(d_) == 1 else sp_
+            if isinstance(sp_, (ast.JoinedStr, ast.Constant)):
+                pseudo = ast.FormattedValue(value=val_, conversion=-1, format_spec=sp_ if isinstance(sp_, ast.JoinedStr) else ast.JoinedStr(values=[sp_]))
+                ast.copy_location(pseudo, n)
+                fmt_exprs.append((pseudo, U(pseudo.format_spec)))
+                fmt_calls.append(n)
     if len(fmt_exprs) != 1:
         raise AnalysisError('format_float: expected exactly one formatted value with a format spec')
     fv, spec = fmt_exprs[0]
@@ -787,6 +800,8 @@ def check_format_float(ctx: Any, mod: Any, ff: Any, prog: Any) -> None:
     def derives(v: ast.AST, depth: int = 0) -> bool:
         if depth > 12:
             return False
+        if fmt_calls and v is fmt_calls[0]:
+            return True
         if isinstance(v, ast.JoinedStr):
             return any(x is fv for x in v.values) and all(isinstance(x, ast.Constant) or x is fv for x in v.values)
         if isinstance(v, ast.Constant) and isinstance(v.value, str):
@@ -899,6 +914,8 @@ def check_format_float(ctx: Any, mod: Any, ff: Any, prog: Any) -> None:
 
 
 MUTANTS = [
+    {'id': 'format_float_builtin_general_spec', 'file': 'math.py', 'find': "    result = f'{x:.{places}f}'\n", 'replace': "    result = format(x, f'.{places}g')\n", 'expect': 'C05.G4'},
+    {'id': 'ok_format_float_builtin_fixed_spec', 'file': 'math.py', 'find': "    result = f'{x:.{places}f}'\n", 'replace': "    spec = f'.{places}f'\n    result = format(x, spec)\n", 'expect': None},
     {'id': 'from_str_memoised', 'file': 'math.py', 'find': "def to_matrix(value: Union['AnyAngle', 'AnyMatrix', 'AnyVec', None]) -> 'Matrix | FrozenMatrix':", 'replace': "@__import__('functools').lru_cache(maxsize=64)\ndef _parse_cached(cls: Any, val: str, x: float, y: float, z: float) -> Any:\n    x, y, z = Py_parse_vec_str(val, x, y, z)\n    return cls(x, y, z)\n\n\ndef to_matrix(value: Union['AnyAngle', 'AnyMatrix', 'AnyVec', None]) -> 'Matrix | FrozenMatrix':", 'extra': [{'file': 'math.py', 'find': "        x, y, z = Py_parse_vec_str(val, x, y, z)\n        return cls(x, y, z)", 'replace': "        if type(val) is str:\n            return _parse_cached(cls, val, x, y, z)\n        x, y, z = Py_parse_vec_str(val, x, y, z)\n        return cls(x, y, z)"}], 'expect': 'C05.G3'},
     {'id': 'ok_parse_numbers_memoised', 'file': 'math.py', 'find': "def to_matrix(value: Union['AnyAngle', 'AnyMatrix', 'AnyVec', None]) -> 'Matrix | FrozenMatrix':", 'replace': "@__import__('functools').lru_cache(maxsize=64)\ndef _parse_cached(val: str, x: float, y: float, z: float) -> 'tuple[float, float, float]':\n    return Py_parse_vec_str(val, x, y, z)\n\n\ndef to_matrix(value: Union['AnyAngle', 'AnyMatrix', 'AnyVec', None]) -> 'Matrix | FrozenMatrix':", 'extra': [{'file': 'math.py', 'find': "        x, y, z = Py_parse_vec_str(val, x, y, z)\n        return cls(x, y, z)", 'replace': "        if type(val) is str:\n            x, y, z = _parse_cached(val, x, y, z)\n            return cls(x, y, z)\n        x, y, z = Py_parse_vec_str(val, x, y, z)\n        return cls(x, y, z)"}], 'expect': None},
     {'id': 'format_float_repr_above_2_53', 'file': 'math.py', 'find': "    result = f'{x:.{places}f}'\n", 'replace': "    if abs(x) >= 2.0 ** 53:\n        result = repr(x)\n        return result[:-2] if result.endswith('.0') else result\n    result = f'{x:.{places}f}'\n", 'expect': 'C05.G4'},
